@@ -32,9 +32,69 @@ def register(S):
                trusted=True,
                note="ASSUMED (vinegar.dump not yet under contract): returns a plain value describing the exception",
                ensures={"result_is_plain": ("plain(result)", ["C08", "C09"])}, raises={}, modifies=[])
-    S.contract(F + "_unbox", params={"self": "obj:Connection", "package": "val"}, result="val", trusted=True,
-               note="ASSUMED (body not yet verified): returns some value or raises anything; while creating a proxy it may "
-                    "perform a nested request on this connection, which can end with the transport closed",
-               ensures={}, raises={"BaseException": {
-                   "modifies": [SOCK + ".outbuf", SOCK + ".inbuf"], "props": ["C08"]}},
-               modifies=[SOCK + ".outbuf", SOCK + ".inbuf"])
+    register_unbox(S)
+
+
+def register_unbox(S):
+    """_unbox and what it uses (C03, C07, C10)"""
+    W = "rpyc/lib/colls.py::WeakValueDict."
+    P3 = ["C03", "C07", "C10", "C01"]
+    # the proxy cache, abstracting the weak references (T-WEAKREF): _dict maps an id pack to the LIVE proxy for it
+    S.contract(W + "__contains__", params={"self": "obj:WeakValueDict", "key": "val"}, result="bool", trusted=True,
+               effect_free=True, note="ASSUMED (weak references are not modelled): whether a live proxy is cached for the key",
+               ensures={"is_membership": ("result == haskey(self._dict, key)", P3)}, raises={}, modifies=[])
+    S.contract(W + "__getitem__", params={"self": "obj:WeakValueDict", "key": "val"}, result="val", trusted=True,
+               effect_free=True, note="ASSUMED (T-WEAKREF): the live proxy cached for the key, KeyError if none",
+               ensures={"the_cached_proxy": ("haskey(self._dict, key) and same(result, self._dict[key])", P3)},
+               raises={"KeyError": {"only_when": "not haskey(self._dict, key)", "props": P3}}, modifies=[])
+    S.contract(W + "__setitem__", params={"self": "obj:WeakValueDict", "key": "val", "value": "val"}, trusted=True,
+               effect_free=True, note="ASSUMED (T-WEAKREF): caches the proxy for the key; other keys untouched",
+               ensures={"cached": ("haskey(self._dict, key) and same(self._dict[key], value) and unchanged_except(self._dict, key)", P3)},
+               raises={}, modifies=["self._dict"])
+    IO = [SOCK + ".outbuf", SOCK + ".inbuf"]
+    S.contract(F + "_netref_factory", params={"self": "obj:Connection", "id_pack": "val"}, result="val", trusted=True,
+               note="ASSUMED (class synthesis is outside the subset; bounded stand-in under C02): a NEW proxy object for this "
+                    "connection and this id pack with reference count 1; may inspect the remote class by a nested request",
+               ensures={"a_new_proxy": ("is_netref(result) and same(netref_conn(result), self) and "
+                                        "same(netref_idpack(result), id_pack) and refcount(result) == 1 and "
+                                        "old(refcount(result)) == 0", P3)},
+               raises={"BaseException": {"props": P3, "modifies": IO}}, modifies=IO + ["$refcounts"])
+
+    UNBOX_IO = IO + ["self._proxy_cache._dict", "$refcounts"]
+    S.contract(F + "_unbox", params={"self": "obj:Connection", "package": "val"}, result="val",
+               requires=["plain(package)", "all_slots_ok(self._local_objects._dict)", "cache_ok(self._proxy_cache._dict, self)"],
+               ensures={
+                   "cache_stays_well_formed": ("cache_ok(self._proxy_cache._dict, self)", P3),
+                   "by_value": ("implies(label_is(package, LABEL_VALUE), same(result, payload(package)) and n_events() == 0)", P3),
+                   # a reference handed back to its owner resolves through THIS connection's table, and only through it
+                   "local_reference_is_the_lent_object": (
+                       "implies(label_is(package, LABEL_LOCAL_REF), haskey(self._local_objects._dict, payload(package)) and "
+                       "same(result, lent(self._local_objects._dict, payload(package))) and n_events() == 1 and "
+                       "n_callees('__getitem__') == 1 and callee_arg('__getitem__', 0, 'self') is self._local_objects)", P3),
+                   "tuple_item_wise_in_order": (
+                       "implies(label_is(package, LABEL_TUPLE), istuple(result) and n_ev('Loop') == 1 and "
+                       "loop_ghost(0, 'unboxed') == items(result) and loop_ghost(0, 'seen') == iter_source(payload(package)))", P3),
+                   "remote_reference_is_a_proxy_for_that_id": (
+                       "implies(label_is(package, LABEL_REMOTE_REF), is_netref(result) and haskey(self._proxy_cache._dict, "
+                       "netref_idpack(result)) and same(self._proxy_cache._dict[netref_idpack(result)], result))", P3),
+                   # the same remote object received again while its proxy is alive IS that proxy, and its count is bumped
+                   "same_proxy_while_alive": (
+                       "implies(label_is(package, LABEL_REMOTE_REF) and n_callees('_netref_factory') == 0, "
+                       "same(result, old(self._proxy_cache._dict[netref_idpack(result)])) and "
+                       "refcount(result) == old(refcount(result)) + 1)", ["C03", "C10"]),
+                   "only_known_labels": ("label_is(package, LABEL_VALUE) or label_is(package, LABEL_TUPLE) or "
+                                         "label_is(package, LABEL_LOCAL_REF) or label_is(package, LABEL_REMOTE_REF)", P3),
+                   "lent_table_untouched": ("True", P3)},
+               raises={"BaseException": {"props": P3, "modifies": UNBOX_IO,
+                                         "state": ["cache_ok(self._proxy_cache._dict, self)"]}}, modifies=UNBOX_IO,
+               loops={0: {"rest": "rest", "havoc": {"acc": "vl"}, "modifies": UNBOX_IO,
+                          "ghost": {"unboxed": ("vl", "nil()", "app(unboxed, cons(callee_result('_unbox', 0), nil()))"),
+                                    "seen": ("vl", "nil()", "app(seen, cons(callee_arg('_unbox', 0, 'package'), nil()))")},
+                          "invariant": ["acc == unboxed", "app(seen, rest) == iter_source(payload(package))",
+                                        "plain_list(rest)", "all_slots_ok(self._local_objects._dict)",
+                                        "cache_ok(self._proxy_cache._dict, self)"],
+                          "body_events": ["n_callees('_unbox') == 1 and n_events() == 1 and "
+                                          "same(callee_arg('_unbox', 0, 'package'), item)"],
+                          "step_hints": ["app_app1(old_seen, item, rest)"],
+                          "snoc_hints": ["snoc_is_app(acc, x)"],
+                          "exit_hints": ["app_nil(seen)"]}})
